@@ -7,7 +7,8 @@ Inductive panic_site :=
   | POverflow       (* arithmetic overflow (debug) / wrap (release) *)
   | PDivZero        (* GF division by zero (assert_ne) *)
   | PAssert         (* assert!, debug_assert!, unreachable!, panic!, expect/unwrap on None *)
-  | POutOfFuel.     (* model artefact: excluded by fuel lemmas *)
+  | POutOfFuel      (* model artefact: excluded by fuel lemmas *)
+  | PBadOracle.     (* model artefact: an oracle input (sort order of the implementation) fails its contract *)
 
 Inductive outcome (E A : Type) : Type :=
   | Ok (a : A)
